@@ -1101,7 +1101,7 @@ func CronMain(args []string) (interface{}, error) {
 					continue // e.g. StatusSync with nothing to write
 				}
 			}
-			if !c.Finale(4000) {
+			if !c.Finale(800) {
 				sum.DrainFailed++
 			}
 			sum.Runs++
@@ -1142,7 +1142,7 @@ func CronMain(args []string) (interface{}, error) {
 					}
 				}
 			}
-			if !c.Finale(4000) {
+			if !c.Finale(800) {
 				sum.DrainFailed++
 			}
 			sum.Runs++
